@@ -24,7 +24,8 @@ pub struct Pieces<'a, const K: usize, const F: usize> {
     pub pos: usize,
     /// ascending absolute cut positions (values >= len mean "no cut")
     pub cuts: [usize; K],
-    /// fault schedule for the first F `fill_buf` calls: 0 = ok, 1 = Interrupted, 2 = other error
+    /// fault schedule for the first F `fill_buf` calls: 0 = ok, 1 = Interrupted, 2..7 = another error kind
+    /// (BrokenPipe, UnexpectedEof, WouldBlock, TimedOut, InvalidData, Other)
     pub sched: [u8; F],
     pub calls: usize,
     pub failed: bool,
@@ -44,9 +45,17 @@ impl<'a, const K: usize, const F: usize> io::BufRead for Pieces<'a, K, F> {
             if self.sched[c] == 1 {
                 return Err(io::Error::from(io::ErrorKind::Interrupted));
             }
-            if self.sched[c] == 2 {
+            if self.sched[c] >= 2 {
                 self.failed = true;
-                return Err(io::Error::from(io::ErrorKind::BrokenPipe));
+                let kind = match self.sched[c] {
+                    2 => io::ErrorKind::BrokenPipe,
+                    3 => io::ErrorKind::UnexpectedEof,
+                    4 => io::ErrorKind::WouldBlock,
+                    5 => io::ErrorKind::TimedOut,
+                    6 => io::ErrorKind::InvalidData,
+                    _ => io::ErrorKind::Other,
+                };
+                return Err(io::Error::from(kind));
             }
         }
         let mut end = self.data.len();
@@ -157,14 +166,14 @@ pub fn check_bufstep<const N: usize, const P: usize, const K: usize, const F: us
     let mut n_err = 0;
     i = 0;
     while i < F {
-        require!(sched[i] <= 2);
+        require!(sched[i] <= 7);
         if mask & C18 == 0 {
             require!(sched[i] == 0);
         }
         if sched[i] == 1 {
             n_int += 1;
         }
-        if sched[i] == 2 {
+        if sched[i] >= 2 {
             n_err += 1;
         }
         i += 1;
@@ -235,5 +244,100 @@ pub fn check_bufstep<const N: usize, const P: usize, const K: usize, const F: us
     core::mem::forget(res_b);
     core::mem::forget(rb);
     core::mem::forget(ubuf);
+    Outcome::Pass
+}
+
+// ---------------------------------------------------------------------------------------------------
+// Helper level: the full buffered reader step exhausts memory (15-40 GB for 2-3 symbolic bytes:
+// every helper with its refill loop is unrolled in every arm of the dispatch), so the buffered source is
+// decided helper by helper: each of the seven `XmlSource` helpers over a chunked / faulty `BufRead`
+// against the SAME helper of the slice source on the same bytes (both real, through the `verif_source`
+// hooks). The dispatch that calls them is the same macro text for both sources (decided under C01).
+
+use quick_xml::reader::verif_source::{self, Res};
+
+/// raw: [len, cuts[K], sched[F], bytes[N]]; `op`: see `verif_source::buffered`
+pub fn check_helper<const N: usize, const K: usize, const F: usize>(raw: &[u8], op: u8, mask: u32, first: u8) -> Outcome {
+    let mut r = Raw::new(raw);
+    let len = r.u8() as usize;
+    let cuts_raw: [u8; K] = r.arr();
+    let sched: [u8; F] = r.arr();
+    let mut bytes: [u8; N] = r.arr();
+    require!(len <= N);
+    if first != 0 {
+        // read_bang_element is only called when the next byte is `!`
+        require!(len >= 1);
+        bytes[0] = first;
+    }
+    let data = &bytes[..len];
+    let mut cuts = [usize::MAX; K];
+    let mut i = 0;
+    let mut prev = 0usize;
+    while i < K {
+        let c = cuts_raw[i] as usize;
+        require!(c >= prev);
+        // the byte order mark sniff looks at the first piece only (documented exception)
+        if op == 6 && i == 0 {
+            require!(c >= 3 || c >= len);
+        }
+        cuts[i] = c;
+        prev = c;
+        i += 1;
+    }
+    let mut n_int = 0;
+    let mut n_err = 0;
+    i = 0;
+    while i < F {
+        require!(sched[i] <= 7);
+        if mask & C18 == 0 {
+            require!(sched[i] == 0);
+        }
+        if sched[i] == 1 {
+            n_int += 1;
+        }
+        if sched[i] >= 2 {
+            n_err += 1;
+        }
+        i += 1;
+    }
+    require!(n_err <= 1);
+
+    // slice source
+    let mut s: &[u8] = data;
+    let mut pos_s: u64 = 7;
+    let (res_s, payload_s) = verif_source::slice(op, &mut s, &mut pos_s);
+
+    // buffered source
+    let mut src: Pieces<K, F> = Pieces { data, pos: 0, cuts, sched, calls: 0, failed: false };
+    let mut buf: Vec<u8> = Vec::with_capacity(N + 2);
+    let mut pos_b: u64 = 7;
+    let res_b = verif_source::buffered(op, &mut src, &mut buf, &mut pos_b);
+
+    if !src.failed {
+        ensure!(res_b == res_s, "C02: a buffered source helper returns what the slice helper returns");
+        // after a syntax error (unclosed construct) nothing follows; everything else: same position, same rest
+        let fatal = matches!(res_s, Res::Syntax(_));
+        if !fatal {
+            ensure!(pos_b == pos_s, "C02: a buffered source helper advances the position like the slice helper");
+            ensure!(src.pos == len - s.len(), "C02: a buffered source helper consumes what the slice helper consumes");
+            ensure!(buf.len() == payload_s.len(), "C02: same payload length from buffered and slice source");
+            forall_idx!(j < payload_s.len() => {
+                ensure!(buf[j] == payload_s[j], "C02: same payload from buffered and slice source");
+            });
+        }
+    } else {
+        match res_b {
+            Res::Io(k) => {
+                ensure!(k != std::io::ErrorKind::Interrupted, "C18: the reported I/O error is the one the source delivered");
+            }
+            _ => {
+                ensure!(false, "C18: an I/O error of the source is reported as an I/O error");
+            }
+        }
+    }
+    witness!(!src.failed && n_int > 0, "interrupted and completed");
+    witness!(src.failed, "io error delivered");
+    witness!(!src.failed && src.calls >= 3 && buf.len() >= 2, "payload assembled from two pieces");
+    core::mem::forget(buf);
     Outcome::Pass
 }
